@@ -34,6 +34,7 @@ META = {
     "assumptions": ["loopback TCP and the openssl CLI are available in the sandbox"],
 }
 META["claim"] += " " + "Also: URL host and server_hostname as IP literals, a certificate with a DNS-only SAN, the ssl_version option, and the CA-bundle environment variable combined with the caller's own ca_certs / ca_cert_path."
+META["claim"] += " " + 'Round 3b: one sslopt dict reused for a later connection after the CA-bundle environment variable changed; upper/mixed-case wss schemes against a real TLS listener (refused, or TLS from the first byte).'
 
 OPENSSL = shutil.which("openssl")
 
